@@ -19,6 +19,7 @@ theorem preGate_frame (d : Disk) (e : Ev) (he : e.preGate = true) (g : FileId) (
     (d.apply e).get g = d.get g := by
   cases e with
   | mkdir p => exact Disk.get_mkdir d p g
+  | mkdirTree => rfl
   | flock => rfl
   | creat f t =>
     cases f <;> simp [Ev.preGate] at he
